@@ -36,8 +36,12 @@ def common_opts(rng, cfg, debug_p=0.25, item=True):
 
 def answers_of(rng, rights, partial=None, allow_forms=True):
     """Author's answers in one of the documented forms."""
-    form = rng.randrange(5) if allow_forms else 0
+    form = rng.randrange(6) if allow_forms else 0
     main = rights[0]
+    if form == 5 and partial:
+        # a known wrong answer worth nothing, listed for its hint
+        return T({'expect': partial, 'grade_decimal': 0, 'msg': pick(rng, ['common mistake', 'hint:\nre-read part b'])},
+                 main)
     if form == 0:
         return main
     if form == 1:
@@ -192,17 +196,21 @@ def t_formula(rng, gid, configured=None, cls='FormulaGrader'):
         pal['right'] = ['%s+2*%s+1' % (x, v0) for x in rights] + [answer]
         partial = None
         others = others + ['dd']
-    if 'comparer' not in cfg and maybe(rng, 0.15) and configured:
+    if 'comparer' not in cfg and maybe(rng, 0.25) and configured:
         stub = gid + '.cmp'
         kind = pick(rng, ['equal', 'table'])
         spec = {'name': stub, 'kind': kind}
         if kind == 'table':
-            spec['returns'] = pick(rng, [[True], [True, False], ['partial'], ['Partial', True],
+            spec['returns'] = pick(rng, [[True], [True, False], ['partial'], ['Partial', True], ['partial'],
+                                         [{'grade_decimal': 0.5, 'msg': 'cmp: half'}],
                                          [{'grade_decimal': 0.5}],
                                          [{'grade_decimal': 1, 'msg': 'cmp says ok'}],
                                          [False, {'grade_decimal': 0.25, 'msg': 'a\nb'}]])
         ans = {'expect': {'comparer_params': [answer], 'comparer': {'__cmp__': spec}}}
-        cfg['answers'] = ans
+        if maybe(rng, 0.5):
+            ans['grade_decimal'] = pick(rng, [1, 0.5, 0.25, 0, 0])
+            ans['msg'] = pick(rng, ['', 'noted'])
+        cfg['answers'] = ans if maybe(rng, 0.7) else T(ans, {'expect': rights[0], 'grade_decimal': 0.5})
         targets.append({'name': stub, 'n': cfg.get('samples', 5), 'where': 'cmp'})
     elif configured:
         cfg['answers'] = answers_of(rng, [answer] + rights, partial=partial)
@@ -257,8 +265,12 @@ def t_matrix(rng, gid, configured=None, theme=False):
     if maybe(rng, 0.3):
         cfg['answer_shape_mismatch'] = {'is_raised': maybe(rng, 0.5),
                                         'msg_detail': pick(rng, [None, 'type', 'shape'])}
-    if maybe(rng, 0.25):
-        cfg['entry_partial_credit'] = pick(rng, ['proportional', 0.5])
+    if maybe(rng, 0.35):
+        r = rng.random()
+        if r < 0.7:
+            cfg['entry_partial_credit'] = pick(rng, ['proportional', 0.5, 0, 1, 0.25])
+        if r > 0.5:
+            cfg['entry_partial_msg'] = pick(rng, ['Some entries are wrong', 'wrong entries:\n{error_locations}'])
     if maybe(rng, 0.3):
         cfg['identity_dim'] = 2
     if maybe(rng, 0.3):
@@ -281,6 +293,10 @@ def t_matrix(rng, gid, configured=None, theme=False):
             'A^-2*A^2*(%s)' % answer]
     if targets:
         negs += ['mf(1)*A^-1*A*(%s)' % answer, 'A^-1*mf(1)*A*(%s)' % answer, 'A^-1*A*mf(1)*(%s)' % answer]
+    bump = {'A*v': '[0,0.37]', 'A*B': '[[0,0],[0,0.37]]', 'A^2+B': '[[0.37,0],[0,0]]'}.get(answer)
+    if bump:
+        # some, but not all, entries right
+        wrongs = wrongs + ['%s+%s' % (answer, bump), '%s-%s' % (rights[-1], bump)]
     pal = {'right': [answer] + rights, 'wrong': wrongs, 'neg': negs,
            'malformed': ['A+v', 'v*v*v', 'A^v', 'A^0.5', '[1,2', '[[1,2],[3]]', 'A/B', 'v^2', 'A*',
                          'trans(v', 'det(v)', '[[[1]]]', 'A+1', '1/v']}
@@ -378,6 +394,12 @@ def t_singlelist(rng, gid, configured=None, shared=None):
             cfg['answers'] = right
         elif form == 2:
             cfg['answers'] = {'expect': ans, 'msg': 'all good', 'grade_decimal': pick(rng, [1, 0.5])}
+        elif form == 3 and not nested and len(rights) >= 2 and maybe(rng, 0.5):
+            # a known wrong list worth nothing, kept for its hint (listed first or last)
+            zero = {'expect': [rights[0]] + list(items['wrong'][:len(rights) - 1]), 'grade_decimal': 0,
+                    'msg': 'you mixed these up'}
+            cfg['answers'] = T(zero, ans) if maybe(rng, 0.5) else T(ans, zero)
+            pal['wrong'] = pal['wrong'] + [j(zero['expect']), j([rights[0], 'zz'])]
         else:
             cfg['answers'] = T(ans, {'expect': right if not nested else ans, 'grade_decimal': 0.5})
     return {'bp': {'id': gid, 'cls': 'SingleListGrader', 'cfg': cfg}, 'configured': configured,
@@ -400,8 +422,10 @@ def t_interval(rng, gid, configured=None):
     if maybe(rng, 0.2):
         cfg['partial_credit'] = False
     if configured:
-        form = rng.randrange(3)
-        if form == 0:
+        form = rng.randrange(4)
+        if form == 3:
+            cfg['answers'] = T({'expect': '(1, 2)', 'grade_decimal': 0, 'msg': 'check the brackets'}, '[1, 2)')
+        elif form == 0:
             cfg['answers'] = '[1, 2)'
         elif form == 1:
             cfg['answers'] = ['[', '1', '2', ')']
